@@ -78,6 +78,10 @@ with warnings.catch_warnings():
         def __getinitargs__(self):
             return (self.child, self.tag, self.more)
 
+    class LegacyExtendedSub(LegacyExtended):
+        """Second legacy level: inherits init_arg_names / __getinitargs__ from its legacy parent, redefines nothing of the protocol."""
+        mapper_method = "map_legacy_extended_sub"
+
 DECORATED = [UBase, UDerived, UNoHash, UNoInit]
 LEGACY_INHERITING = [LegacyChildOfDecorated]
 LEGACY = [LegacyPair, LegacyPairSub]
